@@ -475,3 +475,17 @@ Proof.
   split; [simpl; intuition lia|].
   split; [vm_compute; reflexivity|]. split; [vm_compute; reflexivity|]. vm_compute. reflexivity.
 Qed.
+
+(** the well-formedness hypothesis is needed: in a history in which a seed response is called
+    back for a context that already received a malformed response (the service module never does
+    this: it completes the context's batch with the first response), the model fulfils the
+    request, and the outside-view clause 8 - for which a malformed response ends the request -
+    fires on the model's own trace *)
+Example wf_env_needed :
+  let steps := [ Req 1 0 true true 101 (Some 7); Begin 1700000000 1 [7];
+                 Calls [CallResp 7 CbBadBody]; Calls [CallResp 7 (CbSeed 5)] ] in
+  ~ wf_env [] [] steps
+  /\ check_from toy_sha init pinit tinit (model_trace_o toy_sha init tinit steps) 0 (-1) (-1) 0 false = (-1, 3, 8).
+Proof.
+  cbv zeta. split; [simpl; intuition|]. vm_compute. reflexivity.
+Qed.
